@@ -294,6 +294,82 @@ fn run_with_faults(case: &Case, steps: &[Step], plan: Plan, acc: &mut Acc, verbo
     Ok(nontrivial)
 }
 
+/// "Never wedges the API", for users of the RAII wrappers: `Volume::close(self)` consumes the only
+/// handle such a user holds. Every device call of that close is made to fail in turn; the call must
+/// report the failure, and the volume must be openable again afterwards.
+fn run_volume_close_faults(case: &Case, steps: &[Step], acc: &mut Acc, verbose: bool) -> Result<u64, Failure> {
+    use crate::api::Surf;
+    // reference run: where do the device calls of the closes lie?
+    let run_to_close = |it: &mut Interp| -> bool {
+        for (i, st) in steps.iter().enumerate() {
+            let info = it.step(i, st);
+            if info.panicked.is_some() || !it.divs.is_empty() {
+                return false;
+            }
+        }
+        let mut info = StepInfo { kind: "CloseAll", idx: steps.len(), ..Default::default() };
+        it.close_files_and_dirs(&mut info);
+        info.panicked.is_none() && it.divs.is_empty()
+    };
+    let (d1, d2) = {
+        let mut it = Interp::new(case, Opts::default());
+        if !run_to_close(&mut it) {
+            return Ok(0);
+        }
+        let d1 = it.disk.dev_calls();
+        let vols: Vec<_> = it.vols.iter().map(|v| v.h).collect();
+        for h in vols {
+            let _ = it.api().close_volume(h, Surf::Raii);
+        }
+        (d1, it.disk.dev_calls())
+    };
+    let mut runs = 0u64;
+    for j in d1..d2 {
+        runs += 1;
+        let mut it = Interp::new(case, Opts { faults: true, ..Opts::default() });
+        let mut f = Faults { scribble: true, ..Faults::default() };
+        f.fail_at.insert(j);
+        it.disk.set_faults(f);
+        if !run_to_close(&mut it) {
+            continue;
+        }
+        let vols: Vec<(embedded_sdmmc::RawVolume, usize)> = it.vols.iter().map(|v| (v.h, v.slot)).collect();
+        for (h, slot) in vols {
+            let fired_before = it.disk.0.borrow().faults_fired.len();
+            let r = std::panic::catch_unwind(std::panic::AssertUnwindSafe(|| it.api().close_volume(h, Surf::Raii)));
+            let r = match r {
+                Ok(r) => r,
+                Err(p) => return Err(fail("panic", format!("Volume::close() with device call {} failing panicked: {}", j, interp::panic_msg(&p).0))),
+            };
+            let fired = it.disk.0.borrow().faults_fired.len() > fired_before;
+            if verbose {
+                println!("[fault at device call {}] Volume::close() of slot {} -> {:?} (fault fired: {})", j, slot, r.as_ref().map_err(interp::ek), fired);
+            }
+            if !fired {
+                continue;
+            }
+            acc.class("fault-in:Volume::close");
+            if r.is_ok() {
+                return Err(fail("error-swallowed", format!("device call {} failed during Volume::close() of the volume in slot {} but the call returned success", j, slot)));
+            }
+            // the wrapper is gone; the volume must not stay registered for ever
+            match it.api().open_volume(slot, Surf::Raw) {
+                Ok(h2) => {
+                    let _ = it.api().close_volume(h2, Surf::Raw);
+                }
+                Err(e) if interp::ek(&e) == "DeviceError" => {}
+                Err(e) => {
+                    return Err(fail(
+                        "volume-wedged-after-failed-close",
+                        format!("Volume::close() of slot {} failed with a device error (device call {}) and consumed the handle; opening the volume again answers {:?}", slot, j, interp::ek(&e)),
+                    ));
+                }
+            }
+        }
+    }
+    Ok(runs)
+}
+
 pub fn run_case(case: &Case, acc: &mut Acc, known: &[KnownFinding], verbose: bool, thorough: bool) -> Result<(), Failure> {
     let mut steps: Vec<Step> = ops::prologue();
     steps.extend(normalise(&case.steps));
@@ -356,6 +432,22 @@ pub fn run_case(case: &Case, acc: &mut Acc, known: &[KnownFinding], verbose: boo
                 acc.evaluations += runs;
                 return Err(f);
             }
+        }
+    }
+    match run_volume_close_faults(case, &steps, acc, verbose) {
+        Ok(n) => {
+            runs += n;
+            acc.class_n("volume-close-fault-runs", n);
+        }
+        Err(f) => {
+            if !is_open_known(known, "C11", &f.sig) {
+                if verbose {
+                    println!("FAIL {}: {}", f.sig, f.detail);
+                }
+                acc.evaluations += runs;
+                return Err(f);
+            }
+            acc.known(&f.sig);
         }
     }
     acc.evaluations += runs;
